@@ -279,10 +279,26 @@ def _criteria_args(rng, params):
         conds = [cond() for _ in range(rng.randint(0, 2))]
         subs = [tree('or' if kind == 'and' else 'and', depth - 1) for _ in range(rng.randint(0, 2))] if depth > 0 else []
         return NS(conditions=conds, ors=subs) if kind == 'and' else NS(conditions=conds, ands=subs)
+    class Comparison(NS):
+        pass
+
+    def crit_list():
+        return [Comparison(referenced_parameter=rng.choice('ABCD'), operator=rng.choice(['==', '<', 'geq']),
+                           required_value=str(rng.randint(0, 2)), use_calibrated_value=rng.choice([True, False]))
+                for _ in range(rng.randint(0, 2))]
+    names = ['K0', 'K1', 'K2', 'K3']
+    containers = {n: NS(restriction_criteria=crit_list(), inheritors=[]) for n in names}
+    top = NS(restriction_criteria=crit_list(), inheritors=[rng.choice(names) for _ in range(rng.randint(0, 4))])
     out = []
     for p in params:
         if p == 'packet':
             out.append(packet)
+        elif p == 'container':
+            out.append(top)
+        elif p == 'containers':
+            out.append(containers)
+        elif p == 'i':
+            out.append(rng.randint(0, max(0, len(top.inheritors))))
         elif p == 'a':
             out.append(tree('and', rng.randint(0, 3)))
         elif p == 'o':
